@@ -1,5 +1,6 @@
 SPECIFICATION Spec
 CONSTANTS
+  FaultUniverse = "made"
   Rels = {"r1", "r2"}
   Rollback = "snapshot"
 INVARIANTS TypeOK AllOrNothing NoSilentOrphan RelationshipRefsKept Emit
